@@ -13,6 +13,11 @@ mod report;
 
 use report::Report;
 
+/// Counting allocator (thread-local counters) used by C27 to check that
+/// in-place folding frees exactly what it should.
+#[global_allocator]
+static GLOBAL: props::c27::CountingAlloc = props::c27::CountingAlloc;
+
 fn usage() -> ! {
     eprintln!("usage: vcheck-bin check <ID> --tier quick|thorough | replay <file> | count");
     std::process::exit(2)
@@ -132,6 +137,7 @@ fn run_check(id: &str, tier: &str) -> i32 {
         "C24" => props::c24::run_c24(&rep),
         "C25" => props::c25::run_c25(&rep),
         "C26" => props::c26::run_c26(&rep),
+        "C27" => props::c27::run_c27(&rep),
         "C28" => props::c28::run_c28(&rep),
         _ => {
             eprintln!("no check for {}", id);
